@@ -210,7 +210,7 @@ PROPS = {
     ),
     'C10': dict(
         own_files=['Lemmas/LC10.v', 'Props/C10.v'],
-        corr=[dict(script='corr_oppoint.py', n=400, n_thorough=10000)],
+        corr=[dict(script='corr_oppoint.py', n=400, n_thorough=10000), dict(script='corr_qimin.py', n=200, n_thorough=5000)],
         search='C10.py', budget_quick=50, budget_thorough=800, search_timeout=3400,
         partial=['C10 landing clause: PROVED after the repair of find_operating_point (C10_lands): whenever the pump head is at least the system head '
                  'at qimin and below it at the largest flow, a flow is returned -- the converged secant root at or right of qimin or, when the '
@@ -218,8 +218,9 @@ PROPS = {
                  'heads agree to 1e-6 relative (a jump across zero is rejected).  That scipy\'s bracketing solver answers inside its bracket at a '
                  'sign change is an oracle assumption; that the root returned is THE crossing when there are several is not claimed; both are '
                  'searched against an independent bisection on real pipelines',
-                 'C10_qimin: the minimum-friction flow comes from scipy.optimize.minimize_scalar(bounded) followed (after the repair) by a '
-                 'comparison with the best tabulated flow; its value is an oracle input of the model and its quality is searched only',
+                 'C10_qimin: PROVED after the repair (C10_qimin_not_above_tabulated): whatever scipy\'s two bounded minimisations return (oracles), '
+                 'the flow reported has a head no higher than that at any tabulated flow at or above the lower bound of the search; the '
+                 'model of qimin is compared bit for bit with the real method on synthetic multi-modal system curves',
                  'heads equal within 1e-6 relative: by construction for a bracketed root; for a secant root proved is |gap(b)| <= 1.48e-8 x '
                  '|secant slope| at the last evaluated flow'],
         level_text='Proof (model of find_operating_point with scipy\'s secant written out and the bracketing solver as an oracle, for every head-gap '
